@@ -286,10 +286,13 @@ impl Pattern {
                     .set_extended_globbing(self.enable_extended_globbing)
                     .set_case_insensitive(self.case_insensitive);
 
-                let subpattern_starts_with_dot = subpattern
-                    .pieces
-                    .first()
-                    .is_some_and(|piece| piece.as_str().starts_with('.'));
+                // N.B. We look at the text of the whole component; its first piece may be
+                // empty (e.g., `""*`).
+                let subpattern_starts_with_dot = component
+                    .iter()
+                    .map(|piece| piece.as_str())
+                    .collect::<String>()
+                    .starts_with('.');
 
                 let allow_dot_files = !options.require_dot_in_pattern_to_match_dot_files
                     || subpattern_starts_with_dot;
